@@ -58,13 +58,13 @@ class TSLParser(BaseParser):
         tsl ::= tiled-stride (`,` tiled-stride)*` (, offset: ` offset)?
         """
         tstrides: list[TiledStride] = []
-        offset = 0
+        offset: int | None = 0
         while True:
             if self._current_token.kind == MLIRTokenKind.GREATER:
                 break
             if self.parse_optional_characters("offset"):
                 self._parse_token(MLIRTokenKind.COLON, "Expected colon")
-                offset = self.parse_integer()
+                offset = self._parse_int_or_question()
                 break
             tstrides.append(self._parse_tiled_stride())
             self._parse_optional_token(MLIRTokenKind.COMMA)
